@@ -821,6 +821,10 @@ pub struct StableDeposit {
     pub k: [u16; 3],
     pub tolerance_atomics: Option<Uint128>,
     pub order: u8,
+    /// a swap (offer asset, ask asset, k/4096 of the offer reserve) executed right before the deposit, so
+    /// that protocol fees are pending in the pool when the tolerance is judged
+    #[serde(default)]
+    pub swap_before: Option<(u8, u8, u16)>,
 }
 
 #[derive(Clone, Debug, Serialize, Deserialize)]
@@ -841,7 +845,7 @@ impl Check for LiveDepositSlippageStable {
         "live_deposit_slippage_tolerance_stableswap"
     }
     fn rule(&self) -> &'static str {
-        "stableswap pair or three-asset pool (native/cw20 kinds, amp 1..10^4) with an initial, possibly unbalanced deposit; then 1..6 ProvideLiquidity messages depositing k/4096 of each reserve per asset (balanced, skewed, nearly one-sided) with a slippage tolerance in {None, 0, 1e-18, 0.1%, 1%, 50%, 1, random}, assets listed in any order. Reference: the documented rule (pool ratio = sum of reserves / LP supply, deposit ratio = sum of deposits / LP minted; reject iff pool ratio x (1 - t) > deposit ratio) evaluated in exact rationals from the reported reserves and the LP actually minted, with the three-way 18-decimal band. An accepted deposit must not be MustReject; a deposit rejected for slippage is re-executed without a tolerance in the same state and must not turn out MustAccept. Non-trivial: a forced verdict was exercised."
+        "stableswap pair or three-asset pool (native/cw20 kinds, amp 1..10^4) with an initial, possibly unbalanced deposit; then 1..6 ProvideLiquidity messages, half of them preceded by a swap (so that protocol fees are pending when the tolerance is judged), depositing k/4096 of each reserve per asset (balanced, skewed, nearly one-sided) with a slippage tolerance in {None, 0, 1e-18, 0.1%, 1%, 50%, 1, random}, assets listed in any order. Reference: the documented rule (pool ratio = sum of reserves / LP supply, deposit ratio = sum of deposits / LP minted; reject iff pool ratio x (1 - t) > deposit ratio) evaluated in exact rationals from the reported reserves and the LP actually minted, with the three-way 18-decimal band. An accepted deposit must not be MustReject; a deposit rejected for slippage is re-executed without a tolerance in the same state and must not turn out MustAccept. Non-trivial: a forced verdict was exercised."
     }
     fn strategy(&self, _tier: Tier) -> BoxedStrategy<StableDepositCase> {
         let tol = prop_oneof![
@@ -854,8 +858,8 @@ impl Check for LiveDepositSlippageStable {
             1 => Just(Some(E18)),
             3 => (0u128..E18 / 50).prop_map(Some),
         ];
-        let dep = (0u8..4, [1u16..4096, 0u16..4096, 0u16..4096], tol, 0u8..6)
-            .prop_map(|(user, k, t, order)| StableDeposit { user, k, tolerance_atomics: t.map(Uint128::new), order });
+        let dep = (0u8..4, [1u16..4096, 0u16..4096, 0u16..4096], tol, 0u8..6, proptest::option::weighted(0.5, (0u8..3, 0u8..3, 1u16..2048)))
+            .prop_map(|(user, k, t, order, swap_before)| StableDeposit { user, k, tolerance_atomics: t.map(Uint128::new), order, swap_before });
         (
             any::<bool>(),
             any::<[bool; 3]>(),
@@ -910,6 +914,27 @@ impl Check for LiveDepositSlippageStable {
         }
         let mut forced = false;
         for (step, d) in c.deposits.iter().enumerate() {
+            if let Some((o, a, k)) = d.swap_before {
+                let (o, a) = ((o as usize) % n, (a as usize) % n);
+                if o != a {
+                    let half = Some(Decimal::percent(50));
+                    let ok = match &mut p {
+                        P::Pair(pw) => {
+                            let usr = pw.user(1);
+                            let r0 = pw.view().map_err(Fail::new)?.reserves[o];
+                            pw.swap(&usr, o, (u(r0) * u(k as u128) / u(4096)).try_into().unwrap_or(0u128).max(1), None, half, None).is_ok()
+                        }
+                        P::Trio(tw) => {
+                            let usr = tw.user(1);
+                            let r0 = tw.view().map_err(Fail::new)?.reserves[o];
+                            tw.swap(&usr, o, a, (u(r0) * u(k as u128) / u(4096)).try_into().unwrap_or(0u128).max(1), None, half, None).is_ok()
+                        }
+                    };
+                    if ok {
+                        rec.class("swap_before_the_deposit_ok");
+                    }
+                }
+            }
             let (reserves, supply) = match &p {
                 P::Pair(pw) => {
                     let v = pw.view().map_err(Fail::new)?;
